@@ -82,7 +82,6 @@ SCALE, BACKGROUND = 1.7, 0.25
 Q1 = [0.21, 0.7, 1.3]
 Q2 = [[0.5, 0.2], [-0.1, 1.3], [0.13, -0.3]]
 PD_ALTS = [["gaussian", 3, 0.2], ["uniform", 2, 0.3], ["gaussian", 5, 0.15], ["uniform", 4, 1.5]]
-TYPES = {"p": "", "v": "volume", "s": "sld"}
 QUICK_BASES = ["v", "p", "vp", "pv", "sv", "vvp", "svv", "pvs"]
 D2_BASES3 = ["vvp", "svv", "pvs", "vpv", "vvv", "pps"]
 
@@ -99,10 +98,6 @@ def par_entry(i, t):
             return {"name": "s%d" % i, "type": "sld", "default": 1.0 + 0.1 * i, "lo": -INF, "hi": INF}
         return {"name": "sld%d" % i, "type": "", "default": 1.0 + 0.1 * i, "lo": -INF, "hi": INF}
     return {"name": "b%d" % i, "type": "", "default": 1.0 + 0.1 * i, "lo": -INF, "hi": INF}
-
-
-def is_volume(p):
-    return p["type"] == "volume"
 
 
 def make_spec(types, tree=None, feats=None):
@@ -294,6 +289,8 @@ def nominal_values(spec, ctx, off):
 
 
 def run_case(case, ctx):
+    import tempfile
+    tempfile.tempdir = ctx.scratch      # C sources of failed compilations stay in the private scratch dir
     if case["kind"] == "pair":
         return _run_pair(case, ctx)
     if case["kind"] == "illformed":
@@ -355,7 +352,7 @@ def _run_pair(case, ctx):
                 models[tag] = core.load_model(paths[tag], dtype="double", platform="dll")
     except Exception as exc:  # noqa
         r.fail("well-formed generated definition could not be loaded/built (%s flavour): %r\n%s"
-               % (tag, exc, open(paths[tag]).read()), dict(fk0, clause="build", flavour=tag))
+               % (tag, exc, open(paths[tag]).read()), dict(fk0, clause="build", flavour=tag), branches=["build-failed"])
         return r
     sig = _table_sig(models["c"].info)
     for tag in ("py", "pys"):
@@ -649,14 +646,17 @@ def _run_control(case, ctx):
     rows, fn2d = CONTROLS[case["what"]]
     name = "vk%s" % case_id(case)
     path = write_definition(ctx.scratch, name, rows, fn2d, case["flavour"])
+    fk = {"clause": "build", "feature": "control-" + case["what"], "flavour": case["flavour"]}
     try:
         m, i1, i2 = _load_and_use(path)
     except Exception as exc:  # noqa
-        raise HarnessError("well-formed control definition %s (%s) was rejected: %r\n%s"
-                           % (case["what"], case["flavour"], exc, open(path).read()))
+        return r.fail("well-formed definition %s (%s flavour; the control of the ill-formed list) was rejected: %r\n%s"
+                      % (case["what"], case["flavour"], exc, open(path).read()), fk,
+                      branches=["control-judged", "build-failed"])
     if not (np.all(np.isfinite(i1)) and np.all(np.isfinite(i2))):
-        raise HarnessError("control definition %s evaluates to %s %s" % (case["what"], i1, i2))
-    return r.ok(nt=False, outcome="control-accepted", branches=["control-accepted"])
+        return r.fail("well-formed control definition %s evaluates to %s %s\n%s" % (case["what"], i1, i2, open(path).read()),
+                      dict(fk, clause="control-value"), branches=["control-judged"])
+    return r.ok(nt=False, outcome="control-accepted", branches=["control-judged"])
 
 
 def _run_py_oriented(case, ctx):
@@ -667,12 +667,12 @@ def _run_py_oriented(case, ctx):
     try:
         m, i1, i2 = _load_and_use(path)
     except ValueError as exc:
-        return r.ok(nt=True, outcome="py-oriented-refused", branches=["py-oriented-refused"])
+        return r.ok(nt=True, outcome="py-oriented-refused", branches=["py-oriented-judged"])
     except Exception as exc:  # noqa
         return r.fail("oriented pure-Python definition raised %r instead of the documented refusal" % (exc,),
-                      {"clause": "py-oriented", "how": "wrong-exception"})
+                      {"clause": "py-oriented", "how": "wrong-exception"}, branches=["py-oriented-judged"])
     return r.fail("oriented pure-Python definition accepted; 2-D result %s ignores theta/phi\n%s"
-                  % (i2, open(path).read()), {"clause": "py-oriented", "how": "accepted"})
+                  % (i2, open(path).read()), {"clause": "py-oriented", "how": "accepted"}, branches=["py-oriented-judged"])
 
 
 def finish(ctx, report):
@@ -684,18 +684,20 @@ def finish(ctx, report):
     for f in ("vector-ctl-last", "vector-ctl-first", "vector-fix", "shell", "reff", "valid", "iqxy", "sld",
               "no-volume-parameter-volume", "no-volume-parameter-reff"):
         report.require("feature:" + f, 1, "programs with feature " + f)
-    report.require("input:pd", 1000, "dispersed evaluations")
-    report.require("input:mono-invalid", 5, "monodisperse point outside the validity region")
-    report.require("input:pd-none-qualify", 5, "mesh without qualifying point")
-    report.require("valid-excluded-part", 50, "validity predicate excluded part of a mesh")
-    report.require("cutoff-excluded", 100, "cutoff excluded >= 1 mesh point")
-    report.require("truncated", 100, "distribution truncated by the limits")
-    report.require("two-dispersed", 100, "two simultaneously dispersed parameters")
-    report.require("dispersed-vector-element", 20, "dispersity on an element of a vector parameter")
-    report.require("dim:2d", 100, "2-D q")
-    report.require("reff-mode", 50, "effective-radius modes")
-    report.require("control-accepted", len(CONTROLS), "well-formed controls of the ill-formed list")
-    report.require("py-oriented-refused", 0, "refusal of oriented python models")
+    if not b.get("build-failed"):
+        # input-level guards; a definition that does not build is reported as a violation and evaluates nothing
+        report.require("input:pd", 1000, "dispersed evaluations")
+        report.require("input:mono-invalid", 5, "monodisperse point outside the validity region")
+        report.require("input:pd-none-qualify", 5, "mesh without qualifying point")
+        report.require("valid-excluded-part", 50, "validity predicate excluded part of a mesh")
+        report.require("cutoff-excluded", 100, "cutoff excluded >= 1 mesh point")
+        report.require("truncated", 100, "distribution truncated by the limits")
+        report.require("two-dispersed", 100, "two simultaneously dispersed parameters")
+        report.require("dispersed-vector-element", 20, "dispersity on an element of a vector parameter")
+        report.require("dim:2d", 100, "2-D q")
+        report.require("reff-mode", 50, "effective-radius modes")
+    report.require("control-judged", len(CONTROLS) + 2, "well-formed controls of the ill-formed list")
+    report.require("py-oriented-judged", 1, "refusal of oriented python models")
     n_ill = sum(len(v) for v in ILLFORMED.values()) * 2
     if b.get("illformed-rejected", 0) + b.get("illformed-accepted", 0) < n_ill:
         report.vacuous.append("ill-formed list incomplete: %d of %d judged"
